@@ -4,6 +4,8 @@ from . import core
 HARNESSES = {
     'blk': dict(sources=['blk.c'], flags=core.SAN, replay=False),
     'dec': dict(sources=['dec.c'], flags=core.SAN, replay=False),
+    'strm': dict(sources=['strm.c'], flags=core.SAN, replay=False),
+    'frm': dict(sources=['frm.c'], flags=core.SAN, replay=False),
     'dec0': dict(sources=['dec.c'], flags=core.SAN + ['-DLZ4_FAST_DEC_LOOP=0'], replay=False),
 }
 
@@ -16,15 +18,15 @@ PROPS = {
  'C01': dict(
     module='LZ4V.Properties.C01',
     theorems=['LZ4V.C01.lossless_of_valid_parse'],
-    steps=[dict(harness='blk', mode='c01')],
-    kinds=BLOCK_DECODE_KINDS + ['full_reset_depends_on_state_garbage', 'bound_should_succeed'],
+    steps=[dict(harness='blk', mode='c01'), dict(harness='strm', mode='c18')],
+    kinds=BLOCK_DECODE_KINDS + ['full_reset_depends_on_state_garbage', 'bound_should_succeed', 'block_does_not_decode_against_history', 'stream_block_spec_decode_*', 'fastReset_failed_at_bound'],
     note='HC match finders are an oracle with a per-answer contract check; byPtr (32-bit) table mode not modelled',
  ),
  'C06': dict(
     module='LZ4V.Properties.C06',
     theorems=['LZ4V.C06.decode_is_parse_then_exec', 'LZ4V.C06.serialize_decodes_to_exec'],
-    steps=[dict(harness='blk', mode='c06')],
-    kinds=['spec_decode_fails', 'spec_decode_mismatch', 'end_conditions', 'offset_range', 'crosscheck', 'sanitizer_abort', 'harness_crash', 'timeout'],
+    steps=[dict(harness='blk', mode='c06'), dict(harness='strm', mode='c11')],
+    kinds=['spec_decode_fails', 'spec_decode_mismatch', 'end_conditions', 'offset_range', 'crosscheck', 'stream_block_spec_decode_*', 'sanitizer_abort', 'harness_crash', 'timeout'],
     note='theorems are about the independent decoder/parser; that every real compressor output passes it is checked per output (verified validator), not proved on a compressor model',
  ),
  'C09': dict(
@@ -38,9 +40,10 @@ PROPS = {
  'C17': dict(
     module='LZ4V.Properties.C17',
     theorems=['LZ4V.C17.adaptLastRun_fits', 'LZ4V.C17.adaptLastRun_fills', 'LZ4V.C17.reducedMatchCode_fits', 'LZ4V.C17.next_match_reserve'],
-    steps=[dict(harness='blk', mode='c17')],
+    steps=[dict(harness='blk', mode='c17'), dict(harness='strm', mode='c17')],
     kinds=['destsize_zero', 'destsize_not_full_at_bound', 'ret_gt_cap', 'consumed_out_of_range', 'spec_decode_fails', 'spec_decode_mismatch', 'end_conditions',
-           'real_decoder_mismatch_*', 'negative_return', 'sanitizer_abort', 'harness_crash', 'timeout'],
+           'real_decoder_mismatch_*', 'negative_return', 'sanitizer_abort', 'harness_crash', 'timeout', 'block_does_not_decode_against_history', 'ring_decoder_mismatch',
+           'stream_block_spec_decode_*', 'continue_destSize_contract', 'continue_destSize_not_full_at_bound', 'continue_after_destSize_failed'],
     note='arithmetic of the fillOutput adaptations over regenerated constants; HC destSize via correspondence only so far',
  ),
  'C02': dict(
@@ -68,5 +71,61 @@ PROPS = {
     kinds=['partial_wrong_size', 'partial_wrong_bytes', 'partial_wrote_beyond_target', 'ret_gt_limit', 'ret_gt_capacity', 'model_fault', 'model_mismatch_*',
            'sanitizer_abort', 'harness_crash', 'timeout'],
     note='partial: exact-prefix half decided by correspondence (every target for small contents); bound half is a theorem',
+ ),
+ 'C03': dict(
+    module='LZ4V.Properties.C03',
+    theorems=[],
+    steps=[dict(harness='frm', mode='c03')],
+    kinds=['compression_call_failed_*', 'roundtrip_*', 'decoder_no_progress*', 'frame_rejected_by_spec_parser', 'frame_has_trailing_bytes', 'frame_content_mismatch',
+           'sanitizer_abort', 'harness_crash', 'timeout'],
+ ),
+ 'C07': dict(
+    module='LZ4V.Properties.C07',
+    theorems=[],
+    steps=[dict(harness='frm', mode='c07')],
+    kinds=['frame_rejected_by_spec_parser', 'frame_has_trailing_bytes', 'frame_content_mismatch', 'header_*', 'compressed_block_not_smaller', 'compression_call_failed_*',
+           'sanitizer_abort', 'harness_crash', 'timeout'],
+ ),
+ 'C08': dict(
+    module='LZ4V.Properties.C08',
+    theorems=[],
+    steps=[dict(harness='frm', mode='c08')],
+    kinds=['decoder_no_progress*', 'verdict_depends_on_chunking*', 'output_depends_on_chunking', 'completion_not_at_frame_end', 'complete_but_wrong_output', 'valid_frame_not_completed',
+           'false_completion', 'accepts_offset_zero', 'sanitizer_abort', 'harness_crash', 'timeout'],
+ ),
+ 'C10': dict(
+    module='LZ4V.Properties.C10',
+    theorems=[],
+    steps=[dict(harness='frm', mode='c10')],
+    kinds=['gen_function_disagrees_with_c', 'begin_failed', 'first_update_failed_at_bound', 'update_failed_with_capacity_at_bound', '*_wrote_more_than_capacity', 'flush_failed_at_bound0',
+           'end_failed_at_bound0', 'compressFrame_failed_at_frameBound', 'sanitizer_abort', 'harness_crash', 'timeout'],
+ ),
+ 'C19': dict(
+    module='LZ4V.Properties.C19',
+    theorems=[],
+    steps=[dict(harness='frm', mode='c19')],
+    kinds=['begin_after_history_failed', 'fresh_context_failed', 'reused_cctx_differs_from_fresh', 'reused_dctx_*', 'completion_did_not_stop_at_frame_end', 'getFrameInfo_*',
+           'frame_rejected_by_spec_parser', 'frame_has_trailing_bytes', 'frame_content_mismatch', 'header_*', 'sanitizer_abort', 'harness_crash', 'timeout'],
+ ),
+ 'C11': dict(
+    module='LZ4V.Properties.C11',
+    theorems=['LZ4V.C11.decoder_history_superset', 'LZ4V.C11.linked_block_roundtrip'],
+    steps=[dict(harness='strm', mode='c11')],
+    kinds=['block_does_not_decode_against_history', 'ring_decoder_mismatch', 'stream_block_spec_decode_*', 'continue_failed_at_bound', 'saveDict_bad_return', 'fastReset_failed_at_bound', 'sanitizer_abort', 'harness_crash', 'timeout'] + ['continue_destSize_contract', 'continue_after_destSize_failed'],
+    note='partial: theorems are about the specification (history-superset, linked-block round trip); the streaming state machines (LZ4_compress_fast_continue / HC) are tied by correspondence of every block over random histories and geometries incl. a mirror ring decoder of exactly LZ4_decoderRingBufferSize bytes; > 2 GB renormalisation is not exercised in the quick tier',
+ ),
+ 'C12': dict(
+    module='LZ4V.Properties.C12',
+    theorems=['LZ4V.C12.dict_block_roundtrip', 'LZ4V.C12.dict_prefix_irrelevant'],
+    steps=[dict(harness='strm', mode='c12')],
+    kinds=['block_does_not_decode_against_history', 'ring_decoder_mismatch', 'stream_block_spec_decode_*', 'continue_failed_at_bound', 'saveDict_bad_return', 'fastReset_failed_at_bound', 'sanitizer_abort', 'harness_crash', 'timeout'] + ['attached_dictionary_stream_modified'],
+    note='partial: read-only use of a shared dictionary stream is observed by byte comparison of the dictionary stream before/after every use; concurrency is not exercised',
+ ),
+ 'C18': dict(
+    module='LZ4V.Properties.C18',
+    theorems=['LZ4V.C18.decodes_against_declared_history_only'],
+    steps=[dict(harness='strm', mode='c18')],
+    kinds=['block_does_not_decode_against_history', 'ring_decoder_mismatch', 'stream_block_spec_decode_*', 'continue_failed_at_bound', 'saveDict_bad_return', 'fastReset_failed_at_bound', 'sanitizer_abort', 'harness_crash', 'timeout'],
+    note='partial: the table invariant of the fast compressor is not yet a theorem; every output of reuse histories (bursts of fast-reset one-shots on contiguous small records, streaming sessions, dictionary loads/attachments, failed limited-output calls, each with the documented reset) is judged by the proved specification decoder against the declared history only',
  ),
 }
